@@ -5074,7 +5074,7 @@ func reduceBinaryExprDurationLHS(op Token, lhs *DurationLiteral, rhs Expr, loc *
 		case MUL:
 			return &DurationLiteral{Val: lhs.Val * time.Duration(rhs.Val)}
 		case DIV:
-			if rhs.Val == 0 {
+			if time.Duration(rhs.Val) == 0 {
 				return &DurationLiteral{Val: 0}
 			}
 			return &DurationLiteral{Val: lhs.Val / time.Duration(rhs.Val)}
